@@ -22,6 +22,9 @@ package splitcarfetcher
 //@   # the RECORDED content size of every piece (a remote piece may be longer than header+content: padding after upload)
 //@   fncall NewMultiReaderAt requires len(arg1) == len(files.CarPieces) + 1 && len(arg0) == len(arg1)
 //@   fncall NewMultiReaderAt requires forall k int :: 0 <= k && k < len(files.CarPieces) ==> arg1[k+1] == int64(files.CarPieces[k].ContentSize)
+//@   # ... and every piece is READ through a section of exactly that recorded content, right after its header (the bytes a
+//@   # padded piece holds beyond header+content are never served; EOF comes at the true end)
+//@   fncall io.NewSectionReader requires arg1 == int64(cf.HeaderSize) && arg2 == int64(cf.ContentSize)
 //@   # assumed (trusted boundary): Size() of a piece handle only reports a number, it writes nothing
 //@   fncall fi.Size ensures true
 //@   loop 1 invariant len(sizes) == rangeidx1 + 1 && len(readers) == len(sizes)
